@@ -10,6 +10,7 @@ package main
 
 import (
 	"fmt"
+	"reflect"
 	"go/ast"
 	"go/token"
 	"go/types"
@@ -47,11 +48,36 @@ type Target struct {
 	// in the abstraction; only sound when the function treats them alike).
 	NilIsEmpty bool
 
+	// OutParams (oracles): pointer parameters the callee writes through. The
+	// oracle receives the current pointee and returns the new pointee first
+	// (before its results); the caller's variable is rebound.
+	OutParams []string
+	// Callback (oracles): the name of a function-typed parameter the callee
+	// invokes. Convention: the callee calls it sequentially, zero or more times,
+	// on values it produces ("pages"), stops at the first non-nil error the
+	// callback returns and returns that error; otherwise it returns its own
+	// final error. The oracle then has type `args -> list Page * option err`, and
+	// a function literal passed there may assign captured variables: the call is
+	// translated as a fold of the literal's body over the pages.
+	Callback string
+	// FreshResults (oracles): the pointers / maps the oracle returns are freshly
+	// allocated and referenced by nobody else: the caller may write through them.
+	FreshResults bool
+	// Drop: calls of this function have no modelled effect and their result is
+	// not used (hooks, tracing): a call statement / deferred call disappears,
+	// its arguments are still evaluated for panics.
+	Drop bool
+
 	// Type (instead of Func) configures a named type of Pkg.
 	Type string
 	// Opaque: the type (and the pointer to it) is an abstract type: a Variable
 	// of the Section. Pointers to it are assumed non-nil.
 	Opaque bool
+	// Nilable (with Type, for an interface type): a value of the type may be
+	// nil: it is a `ptr` to its non-nil content (the opaque value, or the
+	// function of a one-method interface). `x == nil` works, a method call needs
+	// a nil guard (or makes the function partial).
+	Nilable bool
 	// Views: expressions on a value of an opaque type that become Variables,
 	// e.g. {"Subject.String()": "string"}.
 	Views map[string]string
@@ -282,6 +308,13 @@ type gen struct {
 	byItem map[string]*item
 	names  map[string]string // Coq global name -> key that owns it
 	notes  []string
+
+	// selftest: dependencies on Section Variables and their instantiation
+	secDeps     map[string][]string
+	secVarOrder []string
+	secInst     map[string]string
+	// selftest: how values of opaque Go types are printed (and their Coq type)
+	opaquePrint map[string]func(v reflect.Value) (term, typ string)
 }
 
 func (g *gen) fail(format string, a ...any) {
@@ -492,6 +525,13 @@ func runGoLiteProp(L *loader, prop string, table []Target) *gen {
 func (g *gen) translateRow(t *Target, fd *funcDecl, obj *types.Func, label string) {
 	sig := obj.Type().(*types.Signature)
 	generic := sig.TypeParams().Len() > 0 || sig.RecvTypeParams().Len() > 0
+	if t.Oracle && len(t.OutParams) > 0 {
+		for i := 0; i < sig.Params().Len(); i++ {
+			if g.kind(sig.Params().At(i).Type(), nil) == kAny {
+				return // instantiated per call site (static type of the `any` argument)
+			}
+		}
+	}
 	if generic && !t.Oracle {
 		if len(t.TypeArgs) == 0 {
 			// instances are produced on demand by the callers; the log line is
@@ -680,7 +720,7 @@ func init() {
 		map_get map_has map_get_ok map_get_or map_del map_set map_entries map_len map_unique
 		list_len list_get zrange_up zrange_down str_len take drop str_cut str_cut_opt str_index str_last_index str_contains
 		str_has_prefix str_has_suffix str_trim_prefix str_trim_suffix str_cut_prefix str_cut_suffix str_contains_any str_split str_join
-		str_slice str_get str_trim_space filepath_ext ext_rev re_match matches re time_zero time_is_zero time_after time_before time_equal
+		ptr_map iface_assert bytes_of_str str_of_bytes list_slice err_dyn_in filepath_base strip_trailing_slashes take_until_slash err_has_typ err_same err_is err_as err_join anyv ANil AStr AInt ABool AOther AUncmp any_is_nil any_str any_int any_bool any_str_opt any_int_opt any_bool_opt anyv_eqb anyv_cmp_panics anyv_eq_opt str_slice str_get str_trim_space filepath_ext ext_rev re_match matches re time_zero time_is_zero time_after time_before time_equal
 		B bytes str_eqb has_prefix cut_byte contains_byte amap lookup lookup_default remove_key set_key mem_str opt_eqb list_eqb run_cases
 		RNone REps RBegin REnd RChar RClass RSeq RAlt RStar RPlus ROpt id plus minus mult le lt ge gt max min`) {
 		reservedCoq[w] = true
